@@ -38,6 +38,9 @@ MENU = [
     ["for x in (3, 1):", "    assert x >= snapshot(2)"],
     ["assert defaultdict(list, {1: [2]}) == snapshot(defaultdict(list))"],
     ["assert NT(a=1, b=[2]) == snapshot(NT(a=1, b=[]))"],
+    # the test looks at the builtin repr() of its values
+    ["assert repr(Color.RED) == snapshot()", "assert repr(DC(x=1)) == snapshot('')"],
+    ["assert [repr({2, 1}), repr(int), repr(1j - 0.0)] == snapshot([])"],
     # nested snapshots behind / before a wrong element of the container that holds them
     ["assert [1, 2, 3] == snapshot([5, snapshot(), 3])"],
     ["assert [1, 2] == snapshot([1, snapshot(5)])"],
@@ -51,6 +54,14 @@ RAISING_FIRST = ("class Strict:\n    def __init__(self, n):\n        self.n = n\
                  "            raise TypeError('cannot compare Strict with %s' % type(other).__name__)\n        return self.n == other.n\n"
                  "    def __repr__(self):\n        return 'Strict(%d)' % self.n\n\n\n"
                  "def test_aa_raises():\n    try:\n        assert [Strict(1), 2] == snapshot([1, 2, 3])\n    except TypeError:\n        pass\n\n\n")
+
+
+# a test in which generating the code of the new value fails (its __repr__ raises) must not disturb later tests either
+RAISING_REPR = ("class Lazy:\n    def __init__(self, loaded):\n        self.loaded = loaded\n    def __eq__(self, other):\n        if not isinstance(other, Lazy):\n"
+                "            return NotImplemented\n        return self.loaded == other.loaded\n"
+                "    def __repr__(self):\n        if not self.loaded:\n            raise RuntimeError('not loaded')\n        return 'Lazy(True)'\n\n\n"
+                "def test_aa_raises():\n    try:\n        assert Lazy(False) == snapshot(Lazy(True))\n    except RuntimeError:\n        pass\n"
+                "    try:\n        assert [0, Lazy(False)] == snapshot([0, 1])\n    except RuntimeError:\n        pass\n\n\n")
 
 
 def bounds(tier):
@@ -106,14 +117,17 @@ def _cases(tier):
             cases.append({"body": list(combo)})
     for i in range(len(MENU)):
         cases.append({"body": [i], "after_raise": True})
+        cases.append({"body": [i], "after_raise": "repr"})
     return cases
 
 
 def build(tier, seed):
     cs = _cases(tier)
     a = [c for c in cs if not c.get("after_raise")]
-    b = [c for c in cs if c.get("after_raise")]
-    return [{"cases": a[i : i + BATCH]} for i in range(0, len(a), BATCH)] + [{"cases": b[i : i + 4]} for i in range(0, len(b), 4)]
+    b = [c for c in cs if c.get("after_raise") is True]
+    b2 = [c for c in cs if c.get("after_raise") == "repr"]
+    return ([{"cases": a[i : i + BATCH]} for i in range(0, len(a), BATCH)] + [{"cases": b[i : i + 4]} for i in range(0, len(b), 4)]
+            + [{"cases": b2[i : i + 4]} for i in range(0, len(b2), 4)])
 
 
 def _site(i, c):
@@ -131,7 +145,7 @@ def _site(i, c):
 
 def _exprs(c):
     if "body" in c:
-        return ["DC", "defaultdict", "NT"]
+        return ["DC", "defaultdict", "NT", "Color"]
     return [c["p"], c["v"]]
 
 
@@ -145,7 +159,7 @@ def _judge(cases):
     needs = ["HasRepr"] if any("Opaque" in e or "Flk" in e for c in cases for e in _exprs(c)) else []
     hdr = ""
     if any(c.get("after_raise") for c in cases):
-        hdr = "from inline_snapshot import snapshot\n" + RAISING_FIRST
+        hdr = "from inline_snapshot import snapshot\n" + (RAISING_REPR if any(c.get("after_raise") == "repr" for c in cases) else RAISING_FIRST)
     return batch.one_file(cases, _site, _exprs, ["create", "fix"], _analyze, needs=needs, calls=False, header=hdr)
 
 
@@ -156,4 +170,4 @@ def run_case(case):
 def run_task(task):
     return batch.run_batched(task["cases"], _judge,
                              label=lambda c: "ok:body%d" % len(c["body"]) if "body" in c else "ok:pair",
-                             key=lambda c: repr(c.get("body") or (c["p"], c["v"], c["op"])), strict_batch=True)
+                             key=lambda c: repr((c.get("body"), c.get("after_raise")) if "body" in c else (c["p"], c["v"], c["op"])), strict_batch=True)
